@@ -575,7 +575,7 @@ func bulk(s *core.Source) (fam int, data []byte, what string) {
 func RunHostile(t *core.T) {
 	warmUp()
 	s := t.Src
-	c := &ctx{t: t}
+	c := newCtx(t)
 	n := 0
 	s.Repeat(1, 12, 24, "case", func(int) {
 		if t.Unlisted() >= 4 {
